@@ -80,8 +80,20 @@ fn open_and_verify(path: &Path, model: &ContainerModel, form: &str) -> Result<u6
     Ok(n + model.contents.len() as u64)
 }
 
+/// Half of the cases keep the prefix short (1..=8192 bytes); the other half puts the end of the
+/// prefix (the start of the container) within 300 bytes below / 8 bytes above a multiple of 16 KiB
+/// of the host file (16, 32, 48, 64 KiB), so that the blocks at the start of the container sit on
+/// and around page and read-ahead boundaries.
+fn effective_prefix_len(len: usize) -> usize {
+    if len % 2 == 0 {
+        16384 * (1 + (len >> 1) % 4) - 300 + (len >> 3) % 309
+    } else {
+        len.clamp(1, 8192)
+    }
+}
+
 fn prefix_bytes(kind: &PrefixKind, len: usize, seed: u32) -> Vec<u8> {
-    let len = len.clamp(1, 8192);
+    let len = effective_prefix_len(len);
     let mut v = match kind {
         PrefixKind::Random => content_bytes(seed, len, Entropy::High),
         PrefixKind::Text => content_bytes(seed, len, Entropy::Text),
@@ -98,6 +110,11 @@ fn prefix_bytes(kind: &PrefixKind, len: usize, seed: u32) -> Vec<u8> {
         }
     };
     v.truncate(len.max(4));
+    // the generators above repeat a short pattern: make long prefixes long
+    while v.len() < len {
+        let k = v.len();
+        v.push((k as u32).wrapping_mul(2654435761).wrapping_add(seed) as u8 | 1);
+    }
     v
 }
 
@@ -106,7 +123,7 @@ impl Property for C10 {
     const ID: &'static str = "C10";
 
     fn rule() -> String {
-        "proptest-generated container specs (contents, 0..2 extra content packs in their own files, directory with 1-2 entry stores whose address columns point at the real contents) are created with BasicCreator in the three packagings; derived forms: tools::concat of the NoConcat files in every order (all permutations up to 4 files, 24 sampled of 120 for 5), concat of two concats, a OneFile container behind a prefix of 1..8192 bytes {random, text, ELF header, bytes starting with 'jbk'+kind char}, and a concat placed next to a corrupted copy of a pack at its recorded location (identity inside the file first). Oracle (metamorphic + model): every form opens, every entry of every index window and every content equal the model, check() is true. Non-trivial = at least one content and one entry and a form other than the creator's own output (all cases have such forms); distinct by (content count, entry count, extra packs, prefix class, compression). Excluded: a prefix that is itself a complete valid Jubako pack (the reader rightly finds that pack at offset 0; the property is about embedding at the end of a foreign file). Form prefix-external: the packs living in their own files (TwoFiles content, NoConcat content and directory, extra packs) are themselves embedded at the end of another file. Extra packs are placed next to the entry point, in a sub-directory, or in a sibling directory (recorded location starting with '..'). Form odd-file-name: one packaging per case is created again under a file name containing ':', ' ', '%', '#', '?', non-ASCII letters, a backslash, several dots, no extension, a leading dot or dash. Every form is opened a second time and its contents asked last pack first.".into()
+        "proptest-generated container specs (contents, 0..2 extra content packs in their own files, directory with 1-2 entry stores whose address columns point at the real contents) are created with BasicCreator in the three packagings; derived forms: tools::concat of the NoConcat files in every order (all permutations up to 4 files, 24 sampled of 120 for 5), concat of two concats, a OneFile container behind a prefix of 1..8192 bytes {random, text, ELF header, bytes starting with 'jbk'+kind char}, and a concat placed next to a corrupted copy of a pack at its recorded location (identity inside the file first). Oracle (metamorphic + model): every form opens, every entry of every index window and every content equal the model, check() is true. Non-trivial = at least one content and one entry and a form other than the creator's own output (all cases have such forms); distinct by (content count, entry count, extra packs, prefix class, compression). Excluded: a prefix that is itself a complete valid Jubako pack (the reader rightly finds that pack at offset 0; the property is about embedding at the end of a foreign file). Form prefix-external: the packs living in their own files (TwoFiles content, NoConcat content and directory, extra packs) are themselves embedded at the end of another file. Extra packs are placed next to the entry point, in a sub-directory, or in a sibling directory (recorded location starting with '..'). Form odd-file-name: one packaging per case is created again under a file name containing ':', ' ', '%', '#', '?', non-ASCII letters, a backslash, several dots, no extension, a leading dot or dash. Every form is opened a second time and its contents asked last pack first. Half of the prefixes end within 300 bytes below / 8 bytes above a multiple of 16 KiB (16..64 KiB). Form concat-file-then-bundle: a bundle (concat of all the files) given to concat after a file it already contains (and after it twice, and followed by another file).".into()
     }
 
     fn cases(tier: Tier) -> u32 {
@@ -136,7 +153,7 @@ impl Property for C10 {
     }
 
     fn required_classes(_tier: Tier) -> Vec<&'static str> {
-        vec!["form:onefile", "form:twofiles", "form:noconcat", "form:concat", "form:concat-of-concats", "form:prefix", "form:prefix+concat", "form:identity-first", "form:reconcat-after-duplicate", "form:prefix-external", "extra-place:1", "extra-place:2", "extra-packs:2", "prefix:JbkLookalike", "prefix:Elf"]
+        vec!["form:onefile", "form:twofiles", "form:noconcat", "form:concat", "form:concat-of-concats", "form:prefix", "form:prefix+concat", "form:identity-first", "form:reconcat-after-duplicate", "form:concat-file-then-bundle", "form:prefix-external", "extra-place:1", "extra-place:2", "extra-packs:2", "prefix:JbkLookalike", "prefix:Elf"]
     }
 
     fn case_timeout_s(_tier: Tier) -> u64 {
@@ -250,6 +267,23 @@ impl Property for C10 {
             let _ = std::fs::remove_file(&p2);
             evals += open_and_verify(&p3, model, "reconcat-after-duplicate")?;
             info.class("form:reconcat-after-duplicate");
+            // a bundle (concat of all the files) given AFTER a file it already contains, and followed or
+            // not by another one: the later input repeats packs of an earlier one and then brings new ones
+            let bundle = cdir.join("bundle.jbk");
+            if let Err(e) = jbk::tools::concat(&files, u(&bundle)) {
+                fail!("concat-error", "bundle: {e}");
+            }
+            let entry = files.iter().find(|f| f.file_name().map_or(false, |n| n == "a.jbk")).unwrap_or(&files[0]);
+            for (k, inputs) in [vec![entry, &bundle], vec![entry, &bundle, &files[n - 1]], vec![entry, entry, &bundle], vec![&files[n - 1], &bundle]].into_iter().enumerate() {
+                let out = p3dir.join(format!("with-bundle{k}.jbk"));
+                if let Err(e) = jbk::tools::concat(&inputs, u(&out)) {
+                    fail!("concat-error", "concat of a file and a bundle that contains it ({k}): {e}");
+                }
+                evals += open_and_verify(&out, model, "concat-file-then-bundle")?;
+                let _ = std::fs::remove_file(&out);
+            }
+            let _ = std::fs::remove_file(&bundle);
+            info.class("form:concat-file-then-bundle");
         }
         // 4. one-file container behind a prefix. Extra packs stay in their own files: copy them along.
         {
@@ -364,7 +398,7 @@ impl Property for C10 {
             nentries,
             case.extra.len(),
             case.prefix_kind,
-            case.prefix_len >= 4096,
+            effective_prefix_len(case.prefix_len as usize) >= 4096,
             case.comp
         ));
         Ok(info)
